@@ -5,6 +5,7 @@ import (
 	"bytes"
 	"encoding/json"
 	"fmt"
+	"verif/internal/reflds"
 
 	"verif/internal/e2e"
 	"verif/internal/perso"
@@ -16,7 +17,7 @@ import (
 
 func init() {
 	vc.Register(&vc.Check{ID: "C08", Level: "exploration", Run: run, Replay: replay, QuickSec: 170, ThoroSec: 1800,
-		Rule: "real Reader.ReadDocument against the independent, genuinely issued chip over a 13-dimensional configuration lattice (access control, password, PACE curve, suite, optional DG subset, CA arrangement, AA key type, large-file size, maxLe, chip Le cap, extended length, issuer trusted, SkipImages). Enumerated completely: every TWO-FACTOR slice (all value pairs of every two dimensions, the rest at the baseline), plus the complete {DG subset x CA x AA x SkipImages} and {file size x maxLe x cap x extended} slices (thorough adds {access x curve x suite x password} and every THREE-factor slice over {first, baseline, middle, last} values). Oracle from the chip's own truth: every returned file byte-identical to the chip's; inside the region the transport supports the read succeeds, every supported DG listed in the SOD is present (DG2/DG7 excepted with SkipImages), BAC/PACE reported as the chip completed them, the strongest chip-authentication mechanism by the library's precedence AA > PACE-CAM > CA is reported successful, PA success <=> issuer in the trust store. distinct_nontrivial = distinct configuration vectors read",
+		Rule:   "real Reader.ReadDocument against the independent, genuinely issued chip over a 13-dimensional configuration lattice (access control, password, PACE curve, suite, optional DG subset, CA arrangement, AA key type, large-file size, maxLe, chip Le cap, extended length, issuer trusted, SkipImages). Enumerated completely: every TWO-FACTOR slice (all value pairs of every two dimensions, the rest at the baseline), plus the complete {DG subset x CA x AA x SkipImages} and {file size x maxLe x cap x extended} slices (thorough adds {access x curve x suite x password} and every THREE-factor slice over {first, baseline, middle, last} values). Oracle from the chip's own truth: every returned file byte-identical to the chip's; inside the region the transport supports the read succeeds, every supported DG listed in the SOD is present (DG2/DG7 excepted with SkipImages), BAC/PACE reported as the chip completed them, the strongest chip-authentication mechanism by the library's precedence AA > PACE-CAM > CA is reported successful, PA success <=> issuer in the trust store. distinct_nontrivial = distinct configuration vectors read",
 		Assume: []string{"required region: maxLe >= 128, extended length supported or maxLe <= 256, chip Le cap 0 or >= 128 (a rung of the 256/192/128 ladder), every chunk of every file starts at an offset <= 32767 (the 15-bit READ BINARY offset) and a file needs <= 990 chunks; outside it only 'exact or error' is demanded", "CA after a successful AA / PACE-CAM is skipped by design and not demanded"}})
 }
 
@@ -453,6 +454,50 @@ s4:
 						}
 					}
 				}
+			}
+		}
+	}
+	// EF.DIR: 1..4 application templates (an LDS2 chip lists several), read under every access arrangement
+	{
+		secD := "EF.DIR with 1..4 application templates"
+		c.SecBound(secD, "EF.DIR listing 1, 2, 3 or 4 applications x {BAC, PACE-GM+BAC, PACE-CAM}: the returned EF.DIR is byte-identical to the chip's")
+		aids := [][]byte{{0xA0, 0, 0, 2, 0x47, 0x10, 0x01}, {0xA0, 0, 0, 2, 0x47, 0x20, 0x01}, {0xA0, 0, 0, 2, 0x47, 0x20, 0x02}, {0xA0, 0, 0, 2, 0x47, 0x20, 0x03}}
+		for n := 1; n <= 4; n++ {
+			for acc := 0; acc < 3; acc++ {
+				if !c.Mine() {
+					continue
+				}
+				cfg := perso.Config{DGs: []int{2}}
+				switch acc {
+				case 0:
+					cfg.BAC = true
+				case 1:
+					cfg.BAC = true
+					cfg.PACE = []refchip.PACEProto{{Mapping: 2, Cipher: 2, ParamID: 13}}
+				default:
+					cfg.PACE = []refchip.PACEProto{{Mapping: 6, Cipher: 2, ParamID: 13}}
+				}
+				p := perso.Build(cfg)
+				dir := reflds.BuildDIR(aids[:n]).Bytes
+				p.Chip.AddMF(0x2F00, 0x1E, dir, refchip.AccFree)
+				p.Chip.MFFilesFromApplication = true // the library reads EF.DIR after selecting the LDS application
+				r := e2e.Read(p, e2e.ReadOpts{})
+				c.Eval(1)
+				rec := map[string]any{"kind": "dir", "applications": n, "access": acc}
+				switch {
+				case r.Panic != nil || r.Err != nil || r.Doc == nil:
+					c.Outcome(secD, "read-failed")
+					c.Violation(secD, "dir/read-failed", fmt.Sprintf("read of a conforming chip with an EF.DIR of %d application(s) failed: %v %v", n, r.Panic, r.Err), rec, nil)
+				case r.Doc.Document.Mf.Dir == nil:
+					c.Outcome(secD, "dir-missing")
+					c.Violation(secD, "dir/not-returned", fmt.Sprintf("EF.DIR (%d applications) is on the chip but not in the document", n), rec, nil)
+				case !bytes.Equal(r.Doc.Document.Mf.Dir.RawData, dir):
+					c.Outcome(secD, "dir-differs")
+					c.Violation(secD, "dir/returned-file-differs-from-the-chips/several-applications", fmt.Sprintf("EF.DIR with %d applications: the chip stores %d bytes (%x), the document returns %d bytes (%x)", n, len(dir), dir, len(r.Doc.Document.Mf.Dir.RawData), r.Doc.Document.Mf.Dir.RawData), rec, nil)
+				default:
+					c.Outcome(secD, "identical")
+				}
+				c.Distinct(fmt.Sprintf("dir/%d/%d", n, acc))
 			}
 		}
 	}
